@@ -153,7 +153,7 @@ def histories(draw):
     ops = [["new", draw(st.integers(0, len(VALID) - 1))]]
     for _ in range(n):
         k = draw(st.sampled_from(["new", "new_invalid", "recompile", "recompile", "recompile_same", "recompile_invalid",
-                                  "recompile_invalid", "repeat_invalid", "call", "call", "recompile_maybe"]))
+                                  "recompile_invalid", "repeat_invalid", "call", "call", "recompile_maybe", "copy"]))
         e = draw(st.integers(0, 3))
         if k == "new":
             ops.append(["new", draw(st.integers(0, len(VALID) - 1))])
@@ -163,6 +163,8 @@ def histories(draw):
             ops.append(["recompile", e, draw(st.integers(0, len(VALID) - 1))])
         elif k == "recompile_same":
             ops.append(["recompile_same", e])
+        elif k == "copy":
+            ops.append(["copy", e, draw(st.integers(0, 1))])
         elif k == "recompile_invalid":
             ops.append(["recompile_invalid", e, draw(st.integers(0, len(INVALID) - 1))])
         elif k == "recompile_maybe":
@@ -237,6 +239,21 @@ def judge(case):
                 except Exception as e:
                     viol.append("step %d: recompile with a valid text raised %s: %s" % (step, type(e).__name__, e))
                     break
+            elif kind == "copy":
+                # a copy (copy.copy / copy.deepcopy) is an evaluator too: it takes the place of its original (or joins the set)
+                # and must behave like a fresh evaluator of the text the original last accepted
+                import copy as _copy
+
+                try:
+                    c = (_copy.copy, _copy.deepcopy)[op[2]](evs[i])
+                except Exception as e:
+                    viol.append("step %d: copying evaluator #%d raised %s: %s" % (step, i, type(e).__name__, e))
+                    break
+                if len(evs) < 4:
+                    evs.append(c)
+                    model.append(model[i])
+                else:
+                    evs[i] = c
             elif kind == "recompile_same":
                 try:
                     evs[i].recompile(_text_of(model[i]))
@@ -429,14 +446,33 @@ def more_fixed():
     for x, y in ((a, b), (b, a), (c, d), (d, c)):
         yield {"ops": [["new", x], ["call", 0, 0], ["recompile", 0, y], ["call", 0, 1], ["recompile", 0, x], ["recompile", 0, y], ["call", 0, 2]]}
         yield {"ops": [["new", x], ["new", y], ["call", 1, 0], ["call", 0, 0], ["recompile", 1, x], ["recompile", 0, y]], "probe_only_at_end": True}
+    for how in (0, 1):
+        yield {"ops": [["new", a], ["recompile", 0, c], ["copy", 0, how], ["call", 1, 0], ["recompile", 0, a], ["call", 1, 1], ["recompile", 1, b], ["call", 0, 2]]}
     # texts that read different field sets, in both directions
     for x, y in ((both, only_plan), (only_plan, both), (_idx("def other { salt: \"s\""), _idx("def num { splitters: uid return 1 w"))):
         yield {"ops": [["new", x], ["recompile", 0, y], ["call", 0, 0], ["recompile", 0, x], ["call", 0, 1]]}
 
 
+def fixed_neighbours():
+    """every weak-fingerprint twin (same length and Adler-32 / byte sum / CRC-32) of one fixed program, both directions"""
+    from .. import neighbours
+
+    body = M.ret([(M.lit_str("aa"), "3"), (M.lit_str("bb"), "1"), (M.lit_str("cc"), "1")])
+    prog = M.program("exp", body, salt="s", splitters=["uid"])
+    only = ["Adler", "transposed", "CRC"]
+    n = len(neighbours.neighbours(prog, only))
+    inputs = [M.enc_inputs({"uid": "u%d" % i}) for i in range(12)]
+    for d in (True, False):
+        for k in range(0, n, 4):
+            yield {"prog": prog, "inputs": inputs, "pick": list(range(k, min(n, k + 4))), "direction": d, "only": only}
+
+
 def run(ctx, rec):
     if ctx.shard == 0:
         runner.direct_run(ctx, rec, "fixed-histories", FIXED + list(more_fixed()), judge)
+        if rec.violations:
+            return
+        runner.direct_run(ctx, rec, "weak-fingerprint-twins", fixed_neighbours(), judge_neighbours)
         if rec.violations:
             return
     runner.hyp_run(ctx, rec, "histories", histories(), judge, ctx.n(400, 2500))
